@@ -199,7 +199,7 @@ UNITS = [
                 ],
             },
             '::vector_mut_copy': {
-                'props': T, 'requires': POP_REQ,
+                'props': T, 'requires': POP_REQ, 'attrs': '#[verifier::rlimit(60)]',
                 'ensures': [
                     (['C14'], '''r is Ok ==> (arg(*old(vm), 0) matches VCell::ArgumentCount(n) && 3 <= n <= 5
                         && (vc_to(*old(vm), n as int) matches Some(to) && vc_at(*old(vm), n as int) matches Some(at) && vc_from(*old(vm), n as int) matches Some(from)
